@@ -192,6 +192,8 @@ void bag<Item, Alloc>::deserialize(const std::string &fname) {
         "Attempting to deserialize bag_impl using communicator of "
         "different size than serialized with");
   }
+  // No rank may return (and insert again) before every rank has loaded
+  m_comm.cf_barrier();
 }
 
 template <typename Item, typename Alloc>
